@@ -451,7 +451,7 @@ func c02r5(r *R) {
 	p := c.pkgOf("pkg/ja4")
 	if o4.Check(p != nil, "pkg/ja4 not loaded") {
 		for nm, want := range map[string]string{"cipherSuitesSeparator": `","`, "extensionsSeparator": `","`, "signatureAlgorithmSeparator": `","`} {
-			obj := p.Types.Scope().Lookup(nm)
+			obj := p.Types.Scope().Lookup(c.nowName("pkg/ja4", nm))
 			o4.Check(obj != nil && constObjString(obj) == want, "%s = %s, want %s", nm, constObjString(obj), want)
 		}
 	}
